@@ -21,11 +21,28 @@ RULE = ("fault sequences x schedules on the simulated network (virtual time, unp
         "with composite events spliced in; the Lean model has no composite event, so these histories are tied to the model only up to their first composite event and judged by the implementation-level oracles after it "
         "(single connector AT EVERY INSTANT - seen when the library creates the task - , census, waiter outcomes, silence after a close that covers every request made before it was called, never anything after shutdown; "
         "a request made WHILE a close is in progress may be ordered either way); "
-        "(E) a sample of histories run with a damaged / altered pairing record (see C11). non-trivial = distinct (addresses, history, record)")
-TRUSTED = ["harness/simnet.py virtual-time loop and in-memory transport follow the asyncio contracts the code relies on", "harness/acc.py scaffold accessory (pair-verify via `cryptography`)",
+        "(E) a sample of histories run with a damaged / altered pairing record (see C11); "
+        "(F) request-carrying callers - sessions with 1..3 OVERLAPPING public requests of IpPairing (get/put_characteristics, list_accessories_and_characteristics, subscribe, unsubscribe, identify, list_pairings, image, "
+        "async_populate_accessories_state; one on the wire, the others queued on the request slot) x {accessory answers at once, keeps its answers, answers late} x {what the next attempts meet: connects at once, refused once / three times, "
+        "TCP time-out, reset in pair-verify, pair-verify unanswered, wrong pairing id, dropped at the first request} x {the session ends by: accessory close, accessory reset, 30 s request time-out, close(), cancellation of the caller on the wire, "
+        "its own time-out, a zeroconf update, not at all} issued in the same loop iteration / a few iterations / an event / a pause later - every combination (thorough) or a sample of 150 (quick) - and random histories over that alphabet; "
+        "judged by the same oracles plus: an accepted TCP connection on which the accessory has received nothing after 31 s while the pairing is not connected = the retries have ended; "
+        "(G) zeroconf THROUGH THE SERVICE BROWSER of the real IpController that owns the pairing (load_pairing; ZeroconfController._handle_service with Added / Updated / Removed, 0.5 s resolve debounce, the harness fills and empties the "
+        "record cache) on an address-aware network (a connect succeeds only to an address the accessory really has): {Added, Updated} x {goodbye 0.1 / 0.4 s later - inside the debounce - , 0.6 s later, none} x {session up and dropped, never reached} "
+        "x {away 0.2 / 5 / 100 s} x {back on the same addresses, another address, an added address, partly moved} x {Added, Updated} - every combination (thorough) or a sample of 150 (quick) - and random mDNS lives (flapping, moves, power cuts, callers, "
+        "requests, closes); `address-excluded` is judged against what the HARNESS announced through the browser (every announced address is tried within longest-list+1 rounds begun more than 1 s after the announcement). "
+        "non-trivial = distinct (addresses, history, record)")
+TRUSTED = ["(stream G) the zeroconf record cache is a real DNSCache filled and emptied by the harness the way the mDNS listener would; AsyncServiceInfo.async_request is replaced by a cache lookup (no multicast query is ever sent); "
+           "an unscripted TCP connect succeeds iff one of its targets is an address the accessory has at that moment",
+           "(stream F) the scaffold accessory serves a small accessory database and answers / keeps / releases application requests as scripted",
+           "harness/simnet.py virtual-time loop and in-memory transport follow the asyncio contracts the code relies on", "harness/acc.py scaffold accessory (pair-verify via `cryptography`)",
            "aiohappyeyeballs.start_connection / loop.create_connection are replaced by the simulated network", "async_interrupt wakes the sleeping connector within the same virtual instant",
            "the task factory of the simulated loop sees every task the library creates; connector tasks are recognised by their coroutine (`_reconnect`), as in the census at quiescence"]
-ASSUMPTIONS = ["one model event = one harness action followed by running the loop to quiescence at that virtual instant (composite events, stream D, are outside the model: implementation-level oracles only)",
+ASSUMPTIONS = ["(streams F, G) application requests and browser callbacks have no model event: such a history is tied to the model up to the first of them and judged by the implementation-level oracles after it",
+               "(stream G) an announcement made through the service browser counts as known to the pairing one second after the callback (the resolve debounce is 0.5 s); within that second a reconnect it hastens, "
+               "or a re-opening of a pairing that was closed, is correct in either order; a list handed to the pairing directly (`d`) replaces the browser's as the reference",
+               "(stream F) the first attempt after the loss of a session that had come up (request time-out, caller's own time-out with its request on the wire) is not a back-off retry",
+               "one model event = one harness action followed by running the loop to quiescence at that virtual instant (composite events, stream D, are outside the model: implementation-level oracles only)",
                "a request for the connection made after close() was called but before it returned is concurrent with the close: the close may cover it (nothing runs afterwards) or it may count as a new request (the pairing re-opens) - "
                "the unchanged library does either, depending on how far the close has got; what is demanded in both cases is a single connector at every instant, the census, bounded waits and no request surviving a shutdown",
                "timers that fall on the same virtual instant: a waiting caller's deadline is processed before the connector's timer (the caller's cancellation is requested before the connector task can finish); the harness uses odd-unit caller timeouts so other ties do not arise",
@@ -52,7 +69,15 @@ def cases_for(ctx):
     cases += composite_cases(ctx, ctx.budget(150, 3000), ctx.budget(120, 3000), ctx.budget(100, 3000))
     for h, e, rec in rcsim.gen_record_histories(rng, ctx.budget(40, 1500)):
         cases.append((h, e, "record", {"record": rec}))
+    cases += session_cases(ctx, ctx.budget(100, 4000), ctx.budget(150, None))
     return cases
+
+
+def session_cases(ctx, n_random, grid_sample):
+    """streams F (request-carrying callers) and G (zeroconf through the service browser of the real controller)"""
+    out = [(h, e, "requests-" + sub) for h, e, sub in rcsim.gen_request_histories(ctx.rng, n_random, grid_sample)]
+    out += [(h, e, "browser-" + sub, {"family": "v4"}) for h, e, sub in rcsim.gen_browser_histories(ctx.rng, n_random, grid_sample)]
+    return out
 
 
 def composite_cases(ctx, n_spaced, n_triples, n_random):
@@ -81,6 +106,11 @@ def run_cases(ctx: Ctx, driver: Driver, pid, sigs, cases):
         if extra.get("phase"):
             ctx.dist["composite-in-phase:" + extra["phase"]] += 1
         for e in events:
+            reqs = [x.split(":")[2] for x in e.split("+") if x.startswith("r:")]
+            if reqs:
+                ctx.dist["overlapping-requests:%d" % len(reqs)] += 1
+                for a in reqs:
+                    ctx.dist["request-api:" + a] += 1
             if "+" in e:
                 ctx.dist["ev:composite"] += 1
                 acts = [x.split(":")[0] for x in e.split("+")]
@@ -91,6 +121,9 @@ def run_cases(ctx: Ctx, driver: Driver, pid, sigs, cases):
             ctx.dist["ev:" + (f[0] if f[0] != "v" else "v:" + f[1])] += 1
         if sim.stats.get("record_refused"):
             ctx.dist["record-refused-at-construction:" + sim.stats["record_refused"]] += 1
+        for key in ("requests", "secure_sessions_lost", "browser_callbacks", "removed_in_debounce"):
+            if sim.stats.get(key):
+                ctx.dist["session:" + key] += sim.stats[key]
         ctx.dist["attempts"] += sim.stats.get("attempts", 0)
         ctx.dist["connections"] += sim.stats.get("connections", 0)
         maxv = max(maxv, sim.stats.get("virtual_seconds", 0))
@@ -151,4 +184,5 @@ def search(ctx: Ctx, driver: Driver, broken):
     rng = ctx.rng
     cases = [(h, e, "search") for h, e in (rcsim.gen_random(rng, long_run=(i % 5 == 0)) for i in range(ctx.budget(3000, 30000)))]
     cases += composite_cases(ctx, ctx.budget(1500, 6000), ctx.budget(1500, 6000), ctx.budget(1000, 6000))
+    cases += session_cases(ctx, ctx.budget(1500, 6000), None)
     run_cases(ctx, driver, ID, SIGS, cases)
